@@ -141,6 +141,9 @@ func c12RunParse(s c12Scn) (mc.Result, int) {
 		parts = append(parts, fmt.Sprint(c))
 	}
 	parts = append(parts, fmt.Sprint(s.HB))
+	if len(s.Lens) > 0 {
+		parts = append(parts, fmt.Sprint(s.Lens), strconv.Itoa(s.Buf), s.Frag, strconv.FormatInt(s.Start, 10), strconv.Itoa(s.StartDb))
+	}
 	return mc.OK(mc.Hash(parts...), true, runs), runs
 }
 
